@@ -918,6 +918,218 @@ def run_7bit(ctx, n):
         if problems:
             ctx.fail('c20:7bit-conversion', case, '; '.join(problems))
 
+# ------------------------------------------------------------------ sequences of operations on ONE envelope object
+OPS_BASES = [
+    ([(b'Subject', 'gr\u00fc\u00dfe'.encode(), []), (b'X-Dup', b'1', []), (b'Content-Type', b'text/plain; charset=utf-8', []),
+      (b'X-Dup', b'2', []), (b'content-transfer-encoding', b'8bit', [])], 'crlf', 'h\u00e9llo w\u00f6rld\r\nsecond line\r\n'.encode()),
+    ([(b'From', b'a@example.com', []), (b'Received', b'from a.example by b.example', [b'\twith ESMTP; Mon, 1 Jan 2024 00:00:00 +0000']),
+      (b'x-dup', b'only', [])], 'lf', '\u65e5\u672c\u8a9e\r\n.\r\nlast line without line end \u00e9'.encode()),
+    ([(b'Subject', b'plain', []), (b'X-Dup', b'1', [])], 'crlf', b'ascii only\r\n'),
+]
+OPS_CORE = 'FRCKYPA'
+OPS_EDIT = 'SDHN'
+
+
+class FlakyEncoderError(Exception):
+    pass
+
+
+def ops_data(base):
+    fs, mode, body = OPS_BASES[base]
+    e = CRLF if mode == 'crlf' else b'\n'
+    return b''.join(n + b': ' + v + e + b''.join(c + e for c in cs) for n, v, cs in fs) + e + body
+
+
+def ops_reference(base, which, ops):
+    """independent statement of what each operation must show: list of expected observations, and for every encode
+    call with the flaky encoder whether that invocation raises"""
+    fs0, mode, body0 = OPS_BASES[base]
+    fs, body, flaky_used = list(fs0), body0, False
+    exp, model_ops = [], []
+    for i, o in enumerate(ops):
+        eight = any(x > 127 for x in body)
+        if o == 'F':
+            exp.append(('flat', hnorm_py(fs) + CRLF, body)); model_ops.append([0])
+        elif o == 'R':
+            exp.append(('refused',) if eight else ('done',)); model_ops.append([1])
+        elif o in 'CK':
+            fails = (o == 'K' and eight and not flaky_used)
+            if fails:
+                flaky_used = True
+                exp.append(('encoder-raised',)); model_ops.append([3])
+            else:
+                if eight:
+                    fs = [f for f in fs if f[0].lower() != b'content-transfer-encoding'] + [(b'Content-Transfer-Encoding', which.encode(), [])]
+                    body = encoded_body(body, which)
+                exp.append(('done',)); model_ops.append([2])
+        elif o == 'Y':
+            exp.append(('done',)); model_ops.append([4, []])
+        elif o == 'P':
+            exp.append(('done',)); model_ops.append([5])
+        elif o == 'A':
+            fs, body = list(fs0), body0
+            exp.append(('done',)); model_ops.append([6, ops_data(base)])
+        elif o == 'S':
+            fs = fs + [(b'X-Edit', b'v%d' % i, [])]
+            exp.append(('done',)); model_ops.append([7, b'X-Edit', b'v%d' % i])
+        elif o == 'D':
+            fs = [f for f in fs if f[0].lower() != b'x-dup']
+            exp.append(('done',)); model_ops.append([8, b'x-dup'])
+        elif o == 'H':
+            idx = [j for j, f in enumerate(fs) if f[0].lower() == b'subject']
+            if idx:
+                fs = fs[:idx[0]] + [(fs[idx[0]][0], b'replaced%d' % i, [])] + fs[idx[0] + 1:]
+                exp.append(('done',))
+            else:
+                exp.append(('edit-raised',))
+            model_ops.append([9, b'subject', b'replaced%d' % i])
+        elif o == 'N':
+            fs = [(b'Received', b'from edit%d' % i, [])] + fs
+            exp.append(('done',)); model_ops.append([10, b'Received', b'from edit%d' % i])
+    return exp, model_ops, (fs, body)
+
+
+def ops_model_obs(o):
+    out = []
+    for x in o:
+        out.append({0: lambda: ('flat', B(x[1]), B(x[2])), 1: lambda: ('done',), 2: lambda: ('refused',),
+                    3: lambda: ('encoder-raised',), 4: lambda: ('edit-raised',)}[x[0]]())
+    return out
+
+
+def ops_run_impl(base, which, ops):
+    """the real Envelope through the operations; observations in the shape of the reference; an unexpected exception
+    becomes an observation ('raised', step, type)"""
+    state = {'flaky_used': False}
+    real = {'base64': encode_base64, 'quoted-printable': encode_quopri}[which]
+
+    def flaky(part):
+        if not state['flaky_used']:
+            state['flaky_used'] = True
+            raise FlakyEncoderError('encoder failed once')
+        return real(part)
+    e = Envelope('sender@example.com', ['r1@example.com'])
+    e.parse(ops_data(base))
+    obs = []
+    for i, o in enumerate(ops):
+        try:
+            if o == 'F':
+                h, b = e.flatten()
+                obs.append(('flat', h, b))
+            elif o in 'RCK':
+                try:
+                    e.encode_7bit({'R': None, 'C': real, 'K': flaky}[o])
+                    obs.append(('done',))
+                except UnicodeError:
+                    obs.append(('refused',))
+                except FlakyEncoderError:
+                    obs.append(('encoder-raised',))
+            elif o == 'Y':
+                e = e.copy(); obs.append(('done',))
+            elif o == 'P':
+                e = pickle.loads(pickle.dumps(e, pickle.HIGHEST_PROTOCOL)); obs.append(('done',))
+            elif o == 'A':
+                e.parse(ops_data(base)); obs.append(('done',))
+            elif o == 'S':
+                e.headers['X-Edit'] = 'v%d' % i; obs.append(('done',))
+            elif o == 'D':
+                del e.headers['x-dup']; obs.append(('done',))
+            elif o == 'H':
+                try:
+                    e.headers.replace_header('subject', 'replaced%d' % i); obs.append(('done',))
+                except KeyError:
+                    obs.append(('edit-raised',))
+            elif o == 'N':
+                e.prepend_header('Received', 'from edit%d' % i); obs.append(('done',))
+        except Exception as ex:
+            obs.append(('raised', exc_name(ex), str(ex)[:200]))
+            break
+    return obs, e
+
+
+def ops_judge(ctx, base, which, ops, exp, obs, final):
+    """the property oracle over one sequence: first step whose stated post-condition does not hold"""
+    case = dict(kind='ops', base=base, encoder=which, ops=ops)
+    last_flat_hdr, edited = None, False
+    for i, (o, want) in enumerate(zip(ops, exp)):
+        got = obs[i] if i < len(obs) else ('missing',)
+        earlier_encode = any(x in 'RCK' for x in ops[:i])
+        if got == want:
+            if o == 'F':
+                last_flat_hdr, edited = got[1], False
+            if o in 'SDHN' and want == ('done',):
+                edited = True
+            if o == 'A' or (o in 'CK' and want == ('done',)):
+                edited = True      # headers legitimately change
+            continue
+        what = 'step %d (%s) of %r: observed %r, stated %r' % (i, o, ops, got, want)
+        if got[0] == 'raised':
+            ctx.fail('c20:operation-raised', case, what)
+        elif o == 'R':
+            ctx.fail('c20:7bit-state-after-refusal' if earlier_encode else 'c20:7bit-8bit-passed-without-encoder', case,
+                     '8-bit body and no encoder must be refused at every call; ' + what)
+        elif o in 'CK':
+            ctx.fail('c20:7bit-state-after-refusal' if earlier_encode else 'c20:7bit-conversion', case, what)
+        elif o == 'F' and got[0] == 'flat':
+            if got[2] != want[2] and any(x > 127 for x in got[2]) and not any(x > 127 for x in want[2]):
+                ctx.fail('c20:7bit-state-after-refusal' if earlier_encode else 'c20:7bit-conversion', case,
+                         'encode_7bit(encoder) returned normally but the body is still 8-bit; ' + what)
+            elif got[2] != want[2]:
+                ctx.fail('c20:body-changed', case, what)
+            elif edited and got[1] == last_flat_hdr:
+                ctx.fail('c20:flatten-ignores-header-edit', case, 'flatten() after an in-place header edit returns the header block of the '
+                         'flatten() before the edit; ' + what)
+            else:
+                ctx.fail('c20:headers-changed', case, what)
+        else:
+            ctx.fail('c20:operation-sequence', case, what)
+        return False
+    return True
+
+
+def ops_sequences(ctx):
+    seqs = ['']
+    alpha = OPS_CORE + OPS_EDIT
+    for L in (1, 2, 3) if ctx.quick else (1, 2, 3, 4):
+        seqs += [''.join(t) for t in itertools.product(alpha, repeat=L)]
+    if ctx.quick:
+        seqs += [''.join(t) for t in itertools.product(OPS_CORE, repeat=4)]
+    for _ in range(600 if ctx.quick else 6000):
+        seqs.append(''.join(ctx.rng.choice(alpha) for _ in range(ctx.rng.randrange(4, 8))))
+    return seqs
+
+
+def run_ops(ctx):
+    seqs = ops_sequences(ctx)
+    jobs, metas = [], []
+    for k, ops in enumerate(seqs):
+        for base in ([k % 3] if ctx.quick else [k % 3, (k + 1) % 3]):
+            which = ('base64', 'quoted-printable')[(k // 3) % 2]
+            ops_f = ops + 'FR'            # final state check: what flatten shows, and the refusal if the body is still 8-bit
+            exp, model_ops, final = ops_reference(base, which, ops_f)
+            metas.append((base, which, ops_f, exp, final))
+            jobs.append([ops_data(base), which.encode(), encoded_body(OPS_BASES[base][2], which), model_ops])
+    outs = ctx.model.batch('c20_ops', jobs)
+    for (base, which, ops, exp, final), o in zip(metas, outs):
+        obs, env = ops_run_impl(base, which, ops)
+        ctx.evaluated(('ops', base, which, ops), nontrivial=len(ops) > 3)
+        ctx.count('ops:length-%d' % (len(ops) - 2))
+        mobs = ops_model_obs(o) if o != (9,) else [('out-of-class',)]
+        if mobs != exp:
+            ctx.mismatch('ops-model-vs-reference', dict(kind='ops', base=base, encoder=which, ops=ops), exp, mobs)
+        if obs != mobs:
+            ctx.mismatch('ops', dict(kind='ops', base=base, encoder=which, ops=ops), obs, mobs)
+        ok = ops_judge(ctx, base, which, ops, exp, obs, final)
+        if ok and any(x in 'CK' for x in ops) and not any(x > 127 for x in final[1]) and any(x > 127 for x in OPS_BASES[base][2]) and 'A' not in ops[ops.rfind('C'):]:
+            # after a successful conversion: pure ASCII that decodes to the same text
+            try:
+                dec = base64.b64decode(final[1]) if which == 'base64' else quopri.decodestring(final[1])
+                if dec.replace(b'\r\n', b'\n') != OPS_BASES[base][2].replace(b'\r\n', b'\n'):
+                    ctx.fail('c20:7bit-conversion', dict(kind='ops', base=base, encoder=which, ops=ops), 'converted body decodes to %r' % (dec,))
+            except Exception:
+                pass
+    return len(jobs)
+
 
 def run(ctx):
     ctx.extra['rule'] = (
@@ -927,7 +1139,11 @@ def run(ctx):
         '8-bit, header-looking and white-space-only lines: flatten(), re-parse, copy, deep copy mutation probe, pickle (2 protocols) compared '
         'with the model (class codec) and with an independent rendering; the same inputs and arbitrary / mutated / small-alphabet-exhaustive byte '
         'strings through parse/flatten/copy/pickle for the never-raises claim and through the model with email\'s answers as codec oracle; '
-        'size: well-formed blocks of 1 / 20 / 150 / 400 / 450 / 900 fields (78-byte folded Received lines, duplicate names, 8-bit Subjects) and blocks of exactly '
+        'ops: every sequence of up to 3 (quick) / 4 (thorough) operations on ONE envelope out of flatten, encode_7bit() [refusal], encode_7bit(encoder), '
+        'encode_7bit(encoder that fails once), copy, pickle round trip, parse again, headers[..]=.., del headers[..], replace_header, prepend_header '
+        '(quick: also all length-4 sequences of the first seven), plus random longer ones, each followed by flatten + encode_7bit(): after every step the stated '
+        'post-condition (refusal whenever the body is 8-bit and no encoder; conversion gives ASCII decoding to the text; flatten shows the CURRENT headers and body) '
+        'and the model trace; size: well-formed blocks of 1 / 20 / 150 / 400 / 450 / 900 fields (78-byte folded Received lines, duplicate names, 8-bit Subjects) and blocks of exactly '
         'T-80, T-1, T, T+1, T+2, T+80 bytes for T = 16384, 32768, 65536, CRLF and LF, x bodies with leading blank lines / bare LF / lone CR / NUL / dot lines '
         '(parse, flatten, copy, pickle, re-parse; model run on the same bytes); nesting: From/To/Cc/Reply-To/Message-ID/References lines of 50..12000 nested '
         '( < " [ alone and behind ordinary fields (email raises RecursionError / IndexError for some: fallback for ANY exception of the first attempt); '
@@ -946,6 +1162,7 @@ def run(ctx):
     run_fallback(ctx, 900 if q else 12000)
     run_nesting(ctx)
     run_sizes(ctx)
+    run_ops(ctx)
     run_7bit(ctx, 500 if q else 6000)
     ctx.extra['exhaustive'] = True
     ctx.extra['exhaustive_bound'] = ('boundary search: all %d byte strings over {CR,LF,SP,a,TAB} up to length %d; parse/flatten/copy/pickle never-raise '
@@ -964,6 +1181,19 @@ def replay(ctx, case):
 
     def unhex(x):
         return bytes.fromhex(x['hex']) if isinstance(x, dict) else x
+    if c.get('kind') == 'ops':
+        exp, model_ops, final = ops_reference(c['base'], c['encoder'], c['ops'])
+        obs, env = ops_run_impl(c['base'], c['encoder'], c['ops'])
+        print('message       :', ops_data(c['base']))
+        print('operations    : %s  (F flatten, R encode_7bit(), C encode_7bit(%s), K encode_7bit(encoder failing once), Y copy, P pickle, '
+              'A parse again, S headers[X-Edit]=.., D del headers[x-dup], H replace_header(subject), N prepend_header(Received))' % (c['ops'], c['encoder']))
+        for i, o in enumerate(c['ops']):
+            got = obs[i] if i < len(obs) else ('not reached',)
+            print('  step %d %s: observed %r%s' % (i, o, got, '' if got == exp[i] else '   <-- stated: %r' % (exp[i],)))
+        if ctx.model:
+            print('model trace   :', ops_model_obs(ctx.model.call('c20_ops', [ops_data(c['base']), c['encoder'].encode(),
+                                                                             encoded_body(OPS_BASES[c['base']][2], c['encoder']), model_ops])))
+        return 0
     if 'gen' in c and 'nest' in c['gen']:
         fs, pos, H, blank = make_nest(c['gen']['nest'])
         data = H + blank + unhex(c['body'])
